@@ -453,11 +453,22 @@ func (a *API) WalkOp(name string, nReplies int) ([]OpPath, *Walker, error) {
 				replyT = ifaceArgs[1].Dyn
 				rec.ReplyType = typeName(replyT)
 			}
-			at := types.NewArray(sig.Results().At(0).Type().Underlying().(*types.Slice).Elem(), int64(nReplies))
+			elemT := sig.Results().At(0).Type().Underlying().(*types.Slice).Elem()
+			concrete := !types.IsInterface(elemT)
+			if concrete {
+				// a generic helper instantiated with the reply type: the elements are replies, not interfaces holding them
+				replyT = elemT
+				rec.ReplyType = typeName(replyT)
+			}
+			at := types.NewArray(elemT, int64(nReplies))
 			cell := w.newCell("replies", at, true)
 			els := make([]*Term, nReplies)
 			for i := range els {
-				els[i] = &Term{Op: "iface", Args: []*Term{a.replyTerm(replyT, fmt.Sprintf("reply[%d]", i))}, Dyn: replyT}
+				if concrete {
+					els[i] = a.replyTerm(replyT, fmt.Sprintf("reply[%d]", i))
+				} else {
+					els[i] = &Term{Op: "iface", Args: []*Term{a.replyTerm(replyT, fmt.Sprintf("reply[%d]", i))}, Dyn: replyT}
+				}
 			}
 			cell.Val = &Term{Op: "slicev", Args: els, Typ: at}
 			sl := &Term{Op: "sref", Cell: cell, Typ: sig.Results().At(0).Type(), Args: []*Term{mkInt(0, types.Typ[types.Int]), mkInt(int64(nReplies), types.Typ[types.Int])}}
